@@ -328,7 +328,7 @@ theorem step_inv {E : Engine} (hE : EngineOK E) {cfg : Cfg} {inp : Input} {st st
       | shortcut hs he => exact (electAll_spec he).1
       | election qv hq hpos el hel hne' hout =>
         obtain ⟨_, _, _, _, _, _, h5⟩ := afterElection_inv hout; rw [h5] at hsc; cases hsc
-      | elimination hout =>
+      | elimination _ hout =>
         obtain ⟨_, _, _, _, _, h5⟩ := afterElimination_inv hout; rw [h5] at hsc; cases hsc
     refine ⟨?_, ?_, ?_, ?_, ?_, ?_, ?_⟩
     · intro _
@@ -337,7 +337,7 @@ theorem step_inv {E : Engine} (hE : EngineOK E) {cfg : Cfg} {inp : Input} {st st
       | shortcut hs he => exact shortcut_fills hs he hle
       | election qv hq hpos el hel hne' hout =>
         obtain ⟨_, _, _, _, _, _, h5⟩ := afterElection_inv hout; rw [h5] at hsc; cases hsc
-      | elimination hout =>
+      | elimination _ hout =>
         obtain ⟨_, _, _, _, _, h5⟩ := afterElimination_inv hout; rw [h5] at hsc; cases hsc
     all_goals first
       | (intro hf; simp only [advance, hsc] at hf; cases hf)
